@@ -48,17 +48,23 @@ class RemoveDebug(SuiteTransformer):
 
         return False
 
-    def suite(self, node_list, parent):
-
+    def without_debug(self, node_list, parent):
         without_debug = []
         for node in node_list:
             if not self.can_remove(node):
                 without_debug.append(self.visit(node))
             elif node.orelse:
                 # The else branch is what runs when __debug__ is False, so it must be kept
-                for statement in self.suite(node.orelse, parent=node):
+                # If nothing of it remains there is nothing to keep: only a suite that ends up empty gets a placeholder
+                for statement in self.without_debug(node.orelse, parent):
                     set_parent(statement, parent)
                     without_debug.append(statement)
+
+        return without_debug
+
+    def suite(self, node_list, parent):
+
+        without_debug = self.without_debug(node_list, parent)
 
         if len(without_debug) == 0:
             if isinstance(parent, ast.Module):
